@@ -135,6 +135,32 @@ CLAIMED = {
         note=TRUST + " `miter_ok` (no ValueError) needs the synthesised names not to collide and endpoints that are not "
              "blackbox pins (machine-checked counterexamples in CG/Proofs/MiterCex.lean).",
         ref="§4 C04"),
+    "C09": dict(
+        technique="Lean 4 theorems (loop invariant with exact node list and fan-in lists of the unrolled circuit, built on the "
+                  "add_subcircuit theorems) + exact structural correspondence (unroll and sequential_unroll incl. io_map) + "
+                  "iterated-simulation search",
+        text="Proof: `unroll_sem` (the per-step copies of any consistent valuation of the unrolled circuit form an execution of "
+             "c: each consistent, state inputs at t+1 = paired state outputs at t, io_map names carry the step values), "
+             "`unroll_complete` (every execution is realised), `unroll_inputs` (free inputs = step-0 state inputs + per-step "
+             "copies of the other inputs; outputs), `unroll_rejects`, `sequential_unroll_reduces` (sequential_unroll = unroll of "
+             "the blackbox-stripped circuit with the flops' d/q pins as state pairing, flop outputs marked exactly when "
+             "requested, string initial values become constants) — every n, pairing, order. The semantic part of "
+             "sequential_unroll beyond this reduction (strip_blackboxes, remove_unloaded, per-flop dict) is tied by exact "
+             "correspondence and cycle-accurate simulation search only.",
+        note=TRUST + " `unroll_inputs` needs: no state output is itself an input node (counterexample CG/Proofs/UnrollCex.lean).",
+        ref="§4 C09"),
+    "C18": dict(
+        technique="Lean 4 theorems (soundness of the feedback-arc heuristic for any ordering, chained-copies invariant, "
+                  "uniqueness of the valuation of the cut circuit) + exact structural correspondence incl. the heuristic's "
+                  "choice + brute-force stable-state search",
+        text="Proof: `fas_cuts_all_cycles` (deleting the returned feedback edges always leaves an acyclic graph), "
+             "`fas_only_cycle_edges`, `acyclic_unroll_shape` (acyclic, lint-clean, same outputs, inputs = original inputs + one "
+             "auxiliary input per feedback node), `stable_state_preserved` (for every stable state, setting the auxiliary inputs "
+             "to the stable values makes every output equal its stable value), `stable_state_realised`, "
+             "`acyclic_unroll_rejects_blackboxes` — all circuits without self-loops, all orders.",
+        note=TRUST + " `stable_state_preserved` needs no `x` constants. The proof exposed a collision introduced by an earlier "
+             "repair (output named like a copy node), since repaired again (see KNOWN_FINDINGS).",
+        ref="§4 C18"),
 }
 
 NOT_YET = "check not built yet in this round (see DESIGN.md §4 for the plan); will be claimed when its Lean model and harness exist"
